@@ -10,6 +10,7 @@ def sig(ev):
 def run(ck):
     ck.tlc_mc("TransportMC", "TransportMC.cfg", workers=4)
     ck.tlc_mc("TransportHistMC", "TransportHistMC.cfg", workers=4)
+    ck.tlaps("TransportProof")   # the policy theorems for every cell and every validity period (TLAPS)
     b = ck.go_build("c18")
     trace, summ = ck.run_driver(b, timeout=900)
     ck.validate(MODULE, trace, sig=sig)
